@@ -15,7 +15,10 @@ use ecdsa::RecoveryId;
 use elliptic_curve::ops::Reduce;
 use k256::ecdsa::{recoverable, Signature as SecpSignature};
 use k256::{FieldBytes, Scalar, SecretKey, U256};
+#[cfg(not(bsv_verif))]
 use rand_core::OsRng;
+#[cfg(bsv_verif)]
+use crate::verif_hooks::SimOsRng as OsRng;
 use rand_core::RngCore;
 use sha2::Sha256;
 
